@@ -9,6 +9,7 @@ import (
 	"encoding/json"
 	"fmt"
 	"io"
+	"net/http"
 	"runtime/debug"
 	"sync"
 	"time"
@@ -48,6 +49,49 @@ type Script struct {
 	// StaticMD: the handler passes the same metadata objects (package-level "static headers") on every
 	// call instead of fresh ones; what one call does with them must not show up in the next
 	StaticMD bool `json:",omitempty"`
+	// Deadline: the caller's context has a (distant) deadline; nothing else about the call changes
+	Deadline bool `json:",omitempty"`
+	// Chunked (HTTP carriers): something between handler and wire (compressing middleware, re-chunking proxy)
+	// removes the Content-Length of replies, so they arrive with unknown length
+	Chunked bool `json:",omitempty"`
+	// RespWithErr: a failing unary handler returns a response value next to its error (return resp, err)
+	RespWithErr bool `json:",omitempty"`
+}
+
+// chunkedWriter drops Content-Length and flushes the header, so the reply goes out chunked.
+type chunkedWriter struct {
+	http.ResponseWriter
+	wrote bool
+}
+
+func (w *chunkedWriter) WriteHeader(code int) {
+	if !w.wrote {
+		w.wrote = true
+		w.Header().Del("Content-Length")
+	}
+	w.ResponseWriter.WriteHeader(code)
+	if f, ok := w.ResponseWriter.(http.Flusher); ok {
+		f.Flush()
+	}
+}
+
+func (w *chunkedWriter) Write(b []byte) (int, error) {
+	if !w.wrote {
+		w.WriteHeader(200)
+	}
+	return w.ResponseWriter.Write(b)
+}
+
+func (w *chunkedWriter) Flush() {
+	if f, ok := w.ResponseWriter.(http.Flusher); ok {
+		f.Flush()
+	}
+}
+
+func chunkedMiddleware(h http.Handler) http.Handler {
+	return http.HandlerFunc(func(w http.ResponseWriter, r *http.Request) {
+		h.ServeHTTP(&chunkedWriter{ResponseWriter: w}, r)
+	})
 }
 
 // RecvRes is one client-side RecvMsg result.
@@ -204,6 +248,9 @@ func scriptService(s *Script, o *Obs, mu *sync.Mutex) *Service {
 		mu.Unlock()
 		runOps(ctx, nil)
 		if e := s.Final.Build(); e != nil {
+			if s.RespWithErr {
+				return resps[s.UnaryResp], e
+			}
 			return nil, e
 		}
 		return resps[s.UnaryResp], nil
@@ -264,6 +311,9 @@ func runScript(s *Script, name string, copts carrierOpts) *Obs {
 	o := &Obs{Carrier: name}
 	var mu sync.Mutex
 	svc := scriptService(s, o, &mu)
+	if s.Chunked && isHTTP(name) && copts.WrapHandler == nil {
+		copts.WrapHandler = chunkedMiddleware
+	}
 	car := newCarrier(name, newServiceDesc(), svc, copts)
 	defer car.Close()
 	runScriptOn(s, car.Conn, o, &mu)
@@ -296,6 +346,11 @@ func runScriptRepeat(s *Script, name string, copts carrierOpts, n int) []*Obs {
 func runScriptOn(s *Script, conn grpc.ClientConnInterface, o *Obs, mu *sync.Mutex) {
 	ctx, cancel := context.WithCancel(context.Background())
 	defer cancel()
+	if s.Deadline {
+		var cancelDL context.CancelFunc
+		ctx, cancelDL = context.WithTimeout(ctx, time.Hour)
+		defer cancelDL()
+	}
 	if len(s.ReqMD) > 0 {
 		ctx = metadata.NewOutgoingContext(ctx, s.ReqMD.MD())
 	}
